@@ -78,9 +78,14 @@ package db
 //@ func DBI.FindMap
 //@ trusted
 //@ requires closes[recv] == 0
+// GetLocationByMap (C03/C10): the location of the longest matching subnet of the client's own family and
+// its prefix length in 128-bit terms: never above 128, and at least 96 for an IPv4 network; a returned
+// location id is two bytes and not the null location.
 //@ func DBI.GetLocationByMap
 //@ trusted
-//@ requires closes[recv] == 0
+//@ requires closes[recv] == 0 && ipnet != nil
+//@ ensures err == nil && result0 != nil ==> result1 <= 128 && (len(ipnet.Mask) == 4 ==> result1 >= 96)
+//@ ensures err == nil && result0 != nil ==> len(result0) == 2 && !(result0[0] == 0 && result0[1] == 0)
 //@ func DBI.ClosestKeyFinder
 //@ trusted
 //@ requires closes[recv] == 0
@@ -190,3 +195,30 @@ package db
 //@ ensures[early] old(newDBI) != nil && old(newDBI) != f.dbi ==> closes[old(newDBI)] == 1
 //@ ensures[tell] !(old(newDBI) != nil && old(newDBI) != f.dbi) ==> destroyNewDbi
 //@ ensures[tellc] !(old(newDBI) != nil && old(newDBI) != f.dbi) ==> closes == old(closes)
+
+// ---- C10 / C03: ECS location lookup -----------------------------------------------------------------------
+// findLocation as used by EcsLocation/ResolverLocation: a fresh Location whose mask, when a location was
+// found, is a prefix length of the 128-bit form that is >= 96 for an IPv4 network.
+//@ func DataReader.findLocation
+//@ requires r.db != nil && r.db.dbi != nil && closes[r.db.dbi] == 0 && ipnet != nil
+//@ ensures[err] err != nil ==> result0 == nil
+//@ ensures[fresh] err == nil ==> result0 != nil && fresh(result0) && result0.Mask <= 128
+//@ ensures[v4] err == nil && len(ipnet.Mask) == 4 && !(result0.LocID[0] == 0 && result0.LocID[1] == 0) ==> result0.Mask >= 96
+
+//@ extern net CIDRMask
+//@ ensures 0 <= ones && ones <= bits && (bits == 32 || bits == 128) ==> len(result) == bits / 8
+
+// EcsLocation (C10): only the scope of the option is written; no map => no location and scope untouched
+// (the handler's caller sees scope 0 only if the query carried 0 — see known findings); map but no subnet =>
+// default scope 24/48; match => the matched prefix length, minus 96 for family 1.
+//@ func DataReader.EcsLocation
+//@ requires[wire] ecs.Family == 1 ==> ecs.SourceNetmask <= 32
+//@ requires ecs != nil && r.db != nil && r.db.dbi != nil && closes[r.db.dbi] == 0
+//@ modifies ecs
+//@ ensures[frame] ecs.Family == old(ecs.Family) && ecs.SourceNetmask == old(ecs.SourceNetmask) && ecs.Address == old(ecs.Address) && ecs.Code == old(ecs.Code)
+//@ ensures[nomap] err == nil && result0 == nil ==> ecs.SourceScope == old(ecs.SourceScope) || ecs.SourceScope == ite(ecs.Family == 2, 48, 24)
+//@ ensures[match4] err == nil && result0 != nil && ecs.Family == 1 ==> ecs.SourceScope == (result0.Mask + 160) % 256
+//@ ensures[match6] err == nil && result0 != nil && ecs.Family != 1 ==> ecs.SourceScope == result0.Mask
+//@ ensures[bound4] err == nil && result0 != nil && ecs.Family == 1 ==> ecs.SourceScope <= 32
+//@ ensures[bound6] err == nil && result0 != nil && ecs.Family != 1 ==> ecs.SourceScope <= 128
+//@ ensures[loc] err == nil && result0 != nil ==> !(result0.LocID[0] == 0 && result0.LocID[1] == 0) && !(result0.MapID[0] == 0 && result0.MapID[1] == 0)
